@@ -23,7 +23,10 @@ use std::sync::Mutex;
 
 pub use std::sync::atomic::Ordering;
 
+#[cfg(not(feature = "wide"))]
 pub const MAX_THREADS: usize = 6;
+#[cfg(feature = "wide")]
+pub const MAX_THREADS: usize = 80;
 pub const FAIR_LIMIT: u32 = 64;
 pub const EAGAIN: i32 = 11;
 pub const EINTR: i32 = 4;
